@@ -259,6 +259,15 @@ fn merge_answers(t: &mut Option<CustomHttpAnswers>, p: &Option<CustomHttpAnswers
         mf!(answer_301, answer_400, answer_401, answer_404, answer_408, answer_413, answer_421, answer_502, answer_503, answer_504, answer_507);
     }
 }
+/// command.proto on the `answers` map of a patch: an entry with a non-empty value replaces the listener's
+/// stored template for that status, an empty one preserves it
+fn merge_answers_map(t: &mut std::collections::BTreeMap<String, String>, p: &std::collections::BTreeMap<String, String>) {
+    for (k, v) in p {
+        if !v.is_empty() {
+            t.insert(k.clone(), v.clone());
+        }
+    }
+}
 /// what the documentation of the patch verbs says: `Some` fields replace, `None` fields preserve
 fn expect_http(b: &HttpListenerConfig, p: &UpdateHttpListenerConfig) -> HttpListenerConfig {
     let mut l = b.clone();
@@ -268,9 +277,10 @@ fn expect_http(b: &HttpListenerConfig, p: &UpdateHttpListenerConfig) -> HttpList
               h2_max_concurrent_streams, h2_stream_shrink_ratio, h2_max_rst_stream_lifetime, h2_max_rst_stream_abusive_lifetime,
               h2_max_rst_stream_emitted_lifetime, h2_max_header_list_size, h2_max_header_table_size, h2_max_header_fields,
               h2_stream_idle_timeout_seconds, h2_graceful_shutdown_deadline_seconds, h2_max_window_update_stream0_per_window,
-              sozu_id_header];
+              sozu_id_header, elide_x_real_ip, send_x_real_ip];
         plain: [expect_proxy, sticky_name, front_timeout, back_timeout, connect_timeout, request_timeout]);
     merge_answers(&mut l.http_answers, &p.http_answers);
+    merge_answers_map(&mut l.answers, &p.answers);
     l
 }
 fn expect_https(b: &HttpsListenerConfig, p: &UpdateHttpsListenerConfig) -> HttpsListenerConfig {
@@ -281,12 +291,14 @@ fn expect_https(b: &HttpsListenerConfig, p: &UpdateHttpsListenerConfig) -> Https
               h2_initial_connection_window, h2_max_concurrent_streams, h2_stream_shrink_ratio, h2_max_rst_stream_lifetime,
               h2_max_rst_stream_abusive_lifetime, h2_max_rst_stream_emitted_lifetime, h2_max_header_list_size,
               h2_max_header_table_size, h2_max_header_fields, h2_stream_idle_timeout_seconds,
-              h2_graceful_shutdown_deadline_seconds, h2_max_window_update_stream0_per_window, sozu_id_header];
+              h2_graceful_shutdown_deadline_seconds, h2_max_window_update_stream0_per_window, sozu_id_header,
+              elide_x_real_ip, send_x_real_ip, hsts];
         plain: [expect_proxy, sticky_name, front_timeout, back_timeout, connect_timeout, request_timeout]);
     if let Some(a) = &p.alpn_protocols {
         l.alpn_protocols = a.values.clone();
     }
     merge_answers(&mut l.http_answers, &p.http_answers);
+    merge_answers_map(&mut l.answers, &p.answers);
     l
 }
 fn expect_tcp(b: &TcpListenerConfig, p: &UpdateTcpListenerConfig) -> TcpListenerConfig {
@@ -422,12 +434,28 @@ pub fn check_accepted(req: &Request, before: &ConfigState, after: &ConfigState) 
         RequestType::UpdateHttpListener(p) => {
             let a: SocketAddr = p.address.into();
             let want = before.http_listeners.get(&a).map(|l| expect_http(l, p));
-            post(want.is_some() && after.http_listeners.get(&a) == want.as_ref(), "listener is not (old listener with exactly the fields of the patch replaced)");
+            let but_answers = want.clone().zip(before.http_listeners.get(&a)).map(|(mut w, b)| {
+                w.answers = b.answers.clone();
+                w
+            });
+            if want.is_some() && after.http_listeners.get(&a) != want.as_ref() && after.http_listeners.get(&a) == but_answers.as_ref() {
+                post(false, "the `answers` map of the patch is not recorded in the listener (every other field is)");
+            } else {
+                post(want.is_some() && after.http_listeners.get(&a) == want.as_ref(), "listener is not (old listener with exactly the fields of the patch replaced)");
+            }
         }
         RequestType::UpdateHttpsListener(p) => {
             let a: SocketAddr = p.address.into();
             let want = before.https_listeners.get(&a).map(|l| expect_https(l, p));
-            post(want.is_some() && after.https_listeners.get(&a) == want.as_ref(), "listener is not (old listener with exactly the fields of the patch replaced)");
+            let but_answers = want.clone().zip(before.https_listeners.get(&a)).map(|(mut w, b)| {
+                w.answers = b.answers.clone();
+                w
+            });
+            if want.is_some() && after.https_listeners.get(&a) != want.as_ref() && after.https_listeners.get(&a) == but_answers.as_ref() {
+                post(false, "the `answers` map of the patch is not recorded in the listener (every other field is)");
+            } else {
+                post(want.is_some() && after.https_listeners.get(&a) == want.as_ref(), "listener is not (old listener with exactly the fields of the patch replaced)");
+            }
         }
         RequestType::UpdateTcpListener(p) => {
             let a: SocketAddr = p.address.into();
